@@ -241,6 +241,12 @@ func runTTL(tc ttlCase) (o ttlOutcome) {
 			}
 		}
 	})
+	for _, a := range tc.Arrivals {
+		if a.GapMs >= 1000 && expired > 0 {
+			class("second wave after expiries")
+			break
+		}
+	}
 	if expired > 0 {
 		class("expired-by-ttl")
 		o.NonTrivial = true
@@ -268,6 +274,17 @@ func genTTL() *rapid.Generator[ttlCase] {
 		}
 		if mid {
 			tc.ShutdownMs = rapid.SampledFrom([]int{150, 220, 300}).Draw(t, "shutdown")
+		} else if rapid.IntRange(0, 2).Draw(t, "second-wave") == 0 {
+			// a second wave after the waiters of the first one have expired (the quota's one-minute window is
+			// still closed): more arrivals than the queue holds, against whatever state the expiries left behind
+			m := tc.Size + rapid.IntRange(1, 2).Draw(t, "wave2")
+			for i := 0; i < m; i++ {
+				gap := rapid.SampledFrom([]int{0, 0, 20}).Draw(t, "gap2")
+				if i == 0 {
+					gap = rapid.SampledFrom([]int{1300, 1600}).Draw(t, "pause")
+				}
+				tc.Arrivals = append(tc.Arrivals, ttlArr{Prio: rapid.SampledFrom([]string{"high", "low", ""}).Draw(t, "prio2"), GapMs: gap})
+			}
 		}
 		return tc
 	})
